@@ -1,6 +1,7 @@
 package main
 
 import (
+	"verif/harness/internal/c03"
 	"verif/harness/internal/c15"
 	"verif/harness/internal/c02"
 	"verif/harness/internal/c07"
@@ -15,6 +16,7 @@ import (
 )
 
 func init() {
+	checks["C03"] = c03.Run
 	checks["C15"] = c15.Run
 	checks["C02"] = c02.Run
 	checks["C07"] = c07.Run
